@@ -362,7 +362,43 @@ def entries():
     return [("dense", n) for n in D.fast_distance_alternatives] + [("sparse", n) for n in S.sparse_fast_distance_alternatives]
 
 
+def api_stage(res, rng, tier):
+    """the surrogate must stay internal over an index's life: after build, after update (the graph is re-seeded from the stored
+    surrogate values) and through query, every *reported* distance is correction(surrogate) = the documented metric"""
+    import warnings
+    warnings.filterwarnings("ignore")
+    from pynndescent import NNDescent
+    from harness import api, oracles
+    metrics = ["euclidean", "cosine"] if tier == "quick" else ["euclidean", "cosine", "hellinger", "jaccard", "dot"]
+    for metric in metrics:
+        n, k, dim = 120, 6, 5
+        X, L = api.gen_dataset(rng, metric, "dense32", n, dim, zero_rows=(metric in ("cosine", "jaccard")))
+        U, UL = api.gen_dataset(rng, metric, "dense32", 25, dim)
+        Q, QL = api.gen_dataset(rng, metric, "dense32", 10, dim)
+        case = {"metric": metric, "n": n, "k": k, "history": ["build", "neighbor_graph", "update(xs_fresh)", "neighbor_graph", "query"]}
+        key = "surrogate:api:%s" % metric
+        try:
+            idx = NNDescent(X, metric=metric, n_neighbors=k, random_state=int(rng.integers(10 ** 6)))
+            g = idx.neighbor_graph
+            probs = oracles.graph_problems(L, k, metric, {}, g[0], g[1])
+            if not probs:
+                idx.update(xs_fresh=U)
+                L2 = np.vstack([L, UL])
+                g = idx.neighbor_graph
+                probs = oracles.graph_problems(L2, k, metric, {}, g[0], g[1])
+                if not probs:
+                    a = idx.query(Q, k=k)
+                    probs = oracles.answer_problems(L2, QL, k, metric, {}, a[0], a[1])
+        except Exception as e:  # noqa
+            probs = [("exception", "%s: %s" % (type(e).__name__, str(e)[:200]))]
+        res.case(("api", metric, np.asarray(L).tobytes()), True, sample=case)
+        res.count("api_history_" + metric); res.traces += 1
+        if probs:
+            res.violation(key + ":" + probs[0][0], "reported distance is not correction(surrogate) = metric over build -> update -> query: %s" % probs[0][1], case)
+
+
 def run(res, tier, seed, search):
+    api_stage(res, np.random.default_rng([seed, 909]), tier)
     from harness import c07_model
     c07_model.run_model(res, np.random.default_rng([seed, 709]), 40 if tier == "quick" else 600)   # Lean model (Float) vs real kernels / ufuncs
     quick = tier == "quick"
